@@ -231,8 +231,9 @@ def contracts(chk, repo, clause_b, clause_d, clause_e, clause_i, clause_conserve
                 chk.ob(clause_b, 'D-contract', f.key, f'output window = bounding box of the mask [{label}]', verdict, det_w, f.loc(e_out.node))
             elif 'mask' in label and 'no mask' not in label:
                 ms, mh = fl.one('propagate._mask_shape'), fl.one('propagate._mask_shift')
+                moved = any('x' not in repo.func(k_).param_names() for k_ in ('propagate._mask_shape', 'propagate._mask_shift'))
                 ob('output window = bounding box of the mask',
-                   e_out.bound['shape'] == ms.result and e_out.bound['shift'] == mh.result
+                   None if moved else e_out.bound['shape'] == ms.result and e_out.bound['shift'] == mh.result
                    and ms.bound['x'] == S('mask') and mh.bound['x'] == S('mask'),
                    f'array_extent({fmt(e_out.bound["shape"])}, {fmt(e_out.bound["shift"])})', e_out)
             else:
